@@ -1027,38 +1027,41 @@ def check_C19(ctx):
     ctx.coverage["samples"] += r["samples"][:5]
     ctx.add_stage("fuzz", {"inputs": r["inputs"], "stats": r["stats"]})
     # real rustc, stable toolchain
-    m = 100 if ctx.tier == "quick" else 1000
+    m = 160 if ctx.tier == "quick" else 1000
     rdir = os.path.join(WORK, "rsample")
     shutil.rmtree(rdir, ignore_errors=True)
     vtool(["rsample-gen", "--seed", str(ctx.seed), "--count", str(m), "--dir", rdir])
     e = env_base()
     e["CARGO_TARGET_DIR"] = os.path.join(TARGET, "rsample")
-    try:
-        p = subprocess.run(["cargo", "+stable", "build", "--offline", "--message-format=json"], cwd=rdir, env=e, timeout=3000, stdout=subprocess.PIPE, stderr=subprocess.PIPE, text=True, errors="replace")
-    except subprocess.TimeoutExpired:
-        raise Inconclusive("rsample build watchdog fired (derive termination is bounded by wall clock only)")
     idx = json.load(open(os.path.join(rdir, "index.json")))["modules"]
     diags = {}
     saw_compiler = False
-    for line in p.stdout.splitlines():
+    stderr_tail = ""
+    for sub in ("acc", "rej"):
         try:
-            msg = json.loads(line)
-        except ValueError:
-            continue
-        if msg.get("reason") == "compiler-artifact" and msg.get("target", {}).get("name") == "logos":
-            saw_compiler = True
-        if msg.get("reason") != "compiler-message":
-            continue
-        d = msg["message"]
-        if not d["level"].startswith("error"):
-            continue
-        f = d["spans"][0]["file_name"] if d["spans"] else "?"
-        diags.setdefault(f, []).append(d["message"])
+            p = subprocess.run(["cargo", "+stable", "build", "--offline", "--message-format=json"], cwd=os.path.join(rdir, sub), env=e, timeout=3000, stdout=subprocess.PIPE, stderr=subprocess.PIPE, text=True, errors="replace")
+        except subprocess.TimeoutExpired:
+            raise Inconclusive("rsample build watchdog fired (derive termination is bounded by wall clock only)")
+        stderr_tail += p.stderr[-300:]
+        for line in p.stdout.splitlines():
+            try:
+                msg = json.loads(line)
+            except ValueError:
+                continue
+            if msg.get("reason") == "compiler-artifact" and msg.get("target", {}).get("name") == "logos":
+                saw_compiler = True
+            if msg.get("reason") != "compiler-message":
+                continue
+            d = msg["message"]
+            if not d["level"].startswith("error"):
+                continue
+            f = sub + "/" + d["spans"][0]["file_name"] if d["spans"] else "?"
+            diags.setdefault(f, []).append(d["message"])
     if not saw_compiler and not diags:
-        ctx.inconclusive.append("rsample: rustc produced no usable output: " + p.stderr[-400:])
+        ctx.inconclusive.append("rsample: rustc produced no usable output: " + stderr_tail)
     panics = rejected_seen = accepted_ok = 0
     for mod in idx:
-        ds = diags.get(f"src/m{mod['module']}.rs", [])
+        ds = diags.get(f"{mod['crate']}/src/m{mod['module']}.rs", [])
         bad = [d for d in ds if "panicked" in d or "internal compiler error" in d]
         if bad:
             panics += 1
